@@ -1645,3 +1645,31 @@ fn test_poly_prepare0() {
         }
     }
 }
+
+/// Verification hooks (only with `--cfg yamaquasi_verif`): the private parameter functions.
+#[cfg(yamaquasi_verif)]
+pub mod verif_hooks {
+    use super::*;
+
+    pub fn vh_fb_size(n: &Uint, use_double: bool) -> u32 {
+        fb_size(n, use_double)
+    }
+    pub fn vh_nfactors(n: &Uint) -> u32 {
+        nfactors(n)
+    }
+    pub fn vh_a_value_count(n: &Uint) -> usize {
+        a_value_count(n)
+    }
+    pub fn vh_a_tolerance_divisor(n: &Uint) -> usize {
+        a_tolerance_divisor(n)
+    }
+    pub fn vh_interval_size(n: &Uint, use_double: bool) -> u32 {
+        interval_size(n, use_double)
+    }
+    pub fn vh_large_prime_factor(n: &Uint) -> u64 {
+        large_prime_factor(n)
+    }
+    pub fn vh_double_large_factor(n: &Uint) -> u64 {
+        double_large_factor(n)
+    }
+}
